@@ -7,9 +7,11 @@ From LMScan Require Import ScanModel ScanConcrete ScanCheck.
 
 Definition x_of_bits := F32.of_bits.
 Definition x_to_bits := F32.to_bits.
+(* side conditions of the well-conditioned theorems, on the environment of a case *)
+Definition ce_wc (K : nat) (v : cenv) : bool := wc_input K (ce_pssm v) (d_factor (ce_dm v)).
 
 Extraction Language OCaml.
 Extraction "scan_model.ml"
   x_of_bits x_to_bits
   c_env ce_R ce_Lm ce_scale ce_collect ce_take ce_max_after ce_take_max ce_scores ce_ptab ce_dscore
-  check_c02 check_c03 bits_ge qual remaining first_missing first_spurious.
+  check_c02 check_c03 bits_ge qual remaining first_missing first_spurious ce_wc.
